@@ -1279,7 +1279,9 @@ class ManifestRecursiveLoader:
                         mm = m
                         mmdirpath = mdirpath
                         i = -1
-                        while mmdirpath == os.path.dirname(fe.path):
+                        # (the top-level Manifest is as far as we can go)
+                        while (mmdirpath == os.path.dirname(fe.path)
+                               and -i < len(manifest_stack)):
                             i -= 1
                             mmpath, mmdirpath, mm = manifest_stack[i]
 
